@@ -21,9 +21,20 @@ import (
 	"verif/harness/sim"
 )
 
+// one recorder for the package: TestC03 (in-process servers, crash at every
+// durable-write boundary) and TestC03Proc (real server processes, SIGKILL) feed
+// the same evidence
+var shared *mon.Recorder
+
+func TestMain(m *testing.M) {
+	shared = mon.Open("C03")
+	code := m.Run()
+	shared.Close()
+	os.Exit(code)
+}
+
 func TestC03(t *testing.T) {
-	rec := mon.Open("C03")
-	defer rec.Finish(t)
+	rec := shared
 	seeds := rec.N(1, 3)
 	job := 0
 	for s := 0; s < seeds; s++ {
